@@ -24,6 +24,7 @@ func algName(a uint8) string {
 type c10Set struct {
 	recs    []*model.Rec
 	respell uint64 // non-zero: names are written with RFC 1035 \X escapes in front of some letters
+	raw8    bool   // octets above 0x7F are written raw into the name strings instead of as \DDD
 	zoneLen int    // labels of the owner that belong to the zone name (left in their plain spelling: Verify compares the signer name with the owner's text)
 }
 
@@ -33,6 +34,9 @@ func (s c10Set) build() []dns.RR {
 		rr, err := buildAny(r)
 		if err != nil {
 			return nil
+		}
+		if s.raw8 {
+			mapNames(rr, rawHighOctets)
 		}
 		if s.respell != 0 {
 			seed := s.respell + uint64(i)*977
@@ -46,6 +50,31 @@ func (s c10Set) build() []dns.RR {
 		out = append(out, rr)
 	}
 	return out
+}
+
+// rawHighOctets rewrites \DDD escapes of octets above 0x7F into the raw octet (a name as a program
+// may hold it: the library accepts raw 8-bit octets in names).
+func rawHighOctets(n string) string {
+	var sb strings.Builder
+	for i := 0; i < len(n); i++ {
+		if n[i] == '\\' && i+3 < len(n) && n[i+1] >= '0' && n[i+1] <= '9' && n[i+2] >= '0' && n[i+2] <= '9' && n[i+3] >= '0' && n[i+3] <= '9' {
+			v := int(n[i+1]-'0')*100 + int(n[i+2]-'0')*10 + int(n[i+3]-'0')
+			if v >= 128 && v <= 255 {
+				sb.WriteByte(byte(v))
+			} else {
+				sb.WriteString(n[i : i+4])
+			}
+			i += 3
+			continue
+		}
+		if n[i] == '\\' && i+1 < len(n) {
+			sb.WriteString(n[i : i+2])
+			i++
+			continue
+		}
+		sb.WriteByte(n[i])
+	}
+	return sb.String()
 }
 
 func (s c10Set) ownerSpelling(o model.Name) string {
@@ -115,7 +144,7 @@ func mapNames(rr dns.RR, f func(string) string) {
 
 func (s c10Set) clone() c10Set {
 	var o c10Set
-	o.respell, o.zoneLen = s.respell, s.zoneLen
+	o.respell, o.zoneLen, o.raw8 = s.respell, s.zoneLen, s.raw8
 	for _, r := range s.recs {
 		o.recs = append(o.recs, cloneRec(r))
 	}
@@ -215,6 +244,9 @@ func c10Case(w *core.W, j int) {
 	}
 	if j%5 == 4 && j%7 != 5 {
 		owner = append(model.Name{[]byte("h~st{2}")}, zone...)
+	}
+	if j%5 == 2 && j%7 != 5 {
+		owner = append(model.Name{[]byte("B\xc3\x9cCHER-\xe2\x84\xaa-\xc3\x89")}, zone...) // UTF-8 upper-case letters outside ASCII
 	}
 	if wild {
 		owner = append(model.Name{[]byte("*")}, zone...)
@@ -394,6 +426,24 @@ func c10Case(w *core.W, j int) {
 					w.Violation(key("sign-output-not-canonical/escaped-letter-spelling"), "signing an RRset whose names are spelled with \\X escapes does not sign the RFC 4034 canonical form: "+why, wit)
 				} else {
 					vs = append(vs, variant{"signed-from-escaped-letter-spelling", set, s7})
+				}
+			}
+		}
+		{
+			v8 := set.clone()
+			v8.raw8 = true
+			s8 := dns.Copy(sig).(*dns.RRSIG)
+			s8.Hdr.Name = rawHighOctets(owner.Pres())
+			vs = append(vs, variant{"raw-8bit-spelling", v8, s8})
+			var n8 *dns.RRSIG
+			var e8 error
+			if !w.Guard("RRSIG.Sign", wit, func() {
+				n8 = &dns.RRSIG{Algorithm: alg, KeyTag: k.Key.KeyTag(), SignerName: sig.SignerName, Inception: 1_700_000_000, Expiration: 1_800_000_000}
+				e8 = n8.Sign(k.Priv, v8.build())
+			}) && e8 == nil {
+				n8.Hdr.Name = sig.Hdr.Name
+				if ok, why := c10ModelAccepts(n8, k.Key, set); !ok {
+					w.Violation(key("sign-output-not-canonical/raw-8bit-spelling"), "signing an RRset whose names hold raw octets above 0x7F does not sign the RFC 4034 canonical form (only A-Z are folded): "+why, wit)
 				}
 			}
 		}
